@@ -39,7 +39,7 @@ func init() {
 		Title:    "Create and Set change exactly what they name",
 		Patterns: []string{"./d2oracle", "./d2ast", "./d2graph", "./d2format", "./d2parser"},
 		Explanation: "Decides four narrow clauses: (1) every key returned by generateUniqueKey is returned on a path on which an existence test of that key failed (HasChild/HasEdge reported false, or the object found is the one being ignored) — so Create never returns the ID of an existing element; " +
-			"(2) the value _set writes is the API argument passed through d2ast.RawString and nothing else (no other string-node constructor sees a non-constant value in d2oracle); (3) RawString in value context quotes every string the parser would read back as something else (null, suspend, unsuspend and the booleans in any letter case, delimiters, escapes keep their case) — the C05 generator clauses for values, adopted here because Set's exactness rests on them; (4) after a mutator resolved the addressed board, element lookups and generateUniqueKey run on the board's graph, not on the root graph (the C41 board-root clause): a name that exists only on the board is otherwise returned as new.",
+			"(2) the value _set writes is the API argument passed through d2ast.RawString and nothing else (no other string-node constructor sees a non-constant value in d2oracle); (3) RawString in value context quotes every string the parser would read back as something else (null, suspend, unsuspend and the booleans in any letter case, delimiters, escapes keep their case) — the C05 generator clauses for values, adopted here because Set's exactness rests on them; (4) after a mutator resolved the addressed board, element lookups and generateUniqueKey run on the board's graph, not on the root graph (the C41 board-root clause): a name that exists only on the board is otherwise returned as new; (5) in _set every overwrite of the key an attribute or the label came from (X.MapKey.SetScalar) is guarded by a predicate that refuses a key with a glob, a key inside the map of a glob (searched from the base AST) and a key inside a class, and the whole value of an existing key is replaced by the new scalar only in the arm where the key has no map.",
 		NotCovered: "that every other element is unchanged, that the created element has the returned ID after recompilation",
 		Technique:  "static analysis: guard queries on go/cfg, who-constructs inventory",
 		Run:        runC37,
@@ -966,6 +966,8 @@ func runC37(c *core.Check) {
 	if nq < 5 {
 		c.Fail("C37.value-quoting", "value-quoting:inventory", token.NoPos, fmt.Sprintf("only %d C05 value clauses found", nq))
 	}
+	// (5) in-place rewrites of an attribute's own key refuse shared keys
+	runC37InPlace(c)
 	// (4) names are tested for existence on the addressed board: the board-root clause of C41
 	c.Rule("C37.board-graph", "after the board is resolved, lookups and unique-name generation use the board's graph (C41 clause)")
 	sub2 := core.NewSubCheck(c)
@@ -974,5 +976,202 @@ func runC37(c *core.Check) {
 		if o.Rule == "C41.board-root" {
 			c.Adopt("C37.board-graph", o)
 		}
+	}
+}
+
+// runC37InPlace: _set may overwrite the key an attribute (or the label) came from only when that key belongs to
+// the element alone. The predicate guarding every such rewrite must refuse a key with a glob, a key inside the
+// map of a glob (an ancestor test that starts from the base AST) and a key inside a class.
+func runC37InPlace(c *core.Check) {
+	c.Rule("C37.in-place-guard", "an attribute's own key is overwritten only under a predicate that refuses globs, keys inside a glob's map, and classes")
+	c.Rule("C37.keep-map", "the value of an existing key is replaced wholesale by the new scalar only when the key has no map")
+	set := mustFunc(c, "d2oracle", "", "_set")
+	if set == nil {
+		return
+	}
+	info := set.Pkg.TypesInfo
+	var baseAST types.Object
+	ps := set.Obj.Type().(*types.Signature).Params()
+	for i := 0; i < ps.Len(); i++ {
+		if strings.HasSuffix(ps.At(i).Type().String(), "d2ast.Map") {
+			baseAST = ps.At(i)
+		}
+	}
+	// facts about a predicate body: which tests it (transitively) performs
+	type facts struct{ glob, class, ancestorGlob bool }
+	var scan func(body ast.Node, finfo *types.Info, depth int, f *facts, underBase bool)
+	scan = func(body ast.Node, finfo *types.Info, depth int, f *facts, underBase bool) {
+		ast.Inspect(body, func(n ast.Node) bool {
+			call, ok := n.(*ast.CallExpr)
+			if !ok {
+				return true
+			}
+			callee := core.CalleeOf(finfo, call)
+			if callee == nil {
+				return true
+			}
+			switch callee.Name() {
+			case "HasGlob":
+				f.glob = true
+				if underBase {
+					f.ancestorGlob = true
+				}
+			case "InClass":
+				f.class = true
+			}
+			if depth < 2 && callee.Pkg() == set.Pkg.Types {
+				passesBase := underBase
+				for _, a := range call.Args {
+					if baseAST != nil && core.ObjOf(finfo, a) == baseAST {
+						passesBase = true
+					}
+				}
+				if h := c.P.Decl(callee); h != nil && h.Decl.Body != nil {
+					scan(h.Decl.Body, h.Pkg.TypesInfo, depth+1, f, passesBase)
+				}
+			}
+			return true
+		})
+	}
+	preds := map[types.Object]*facts{}
+	ast.Inspect(set.Decl.Body, func(n ast.Node) bool {
+		as, ok := n.(*ast.AssignStmt)
+		if !ok || len(as.Lhs) != 1 || len(as.Rhs) != 1 {
+			return true
+		}
+		if lit, ok := ast.Unparen(as.Rhs[0]).(*ast.FuncLit); ok {
+			f := &facts{}
+			scan(lit.Body, info, 0, f, false)
+			preds[core.ObjOf(info, as.Lhs[0])] = f
+		}
+		return true
+	})
+	fl := core.NewFlow(set.Pkg, set.Decl.Body)
+	nsites := 0
+	counts := map[string]int{}
+	ast.Inspect(set.Decl.Body, func(n ast.Node) bool {
+		switch x := n.(type) {
+		case *ast.CallExpr:
+			sel, ok := ast.Unparen(x.Fun).(*ast.SelectorExpr)
+			if !ok || sel.Sel.Name != "SetScalar" {
+				return true
+			}
+			mkSel, ok := ast.Unparen(sel.X).(*ast.SelectorExpr)
+			if !ok || mkSel.Sel.Name != "MapKey" {
+				return true
+			}
+			t := info.TypeOf(mkSel.X)
+			if t == nil || !strings.HasSuffix(strings.TrimPrefix(t.String(), "*"), "d2graph.Scalar") {
+				return true
+			}
+			nsites++
+			key := "in-place:_set:" + exprStr(mkSel.X)
+			counts[key]++
+			if counts[key] > 1 {
+				key = fmt.Sprintf("%s#%d", key, counts[key])
+			}
+			var best *facts
+			for _, g := range fl.GuardsOfNode(x) {
+				for _, a := range g.Atoms() {
+					if call, ok := ast.Unparen(a.Cond).(*ast.CallExpr); ok && a.True {
+						if f := preds[core.ObjOf(info, call.Fun)]; f != nil {
+							best = f
+						}
+					}
+				}
+			}
+			missing := ""
+			switch {
+			case best == nil:
+				missing = "no guarding predicate"
+			case !best.glob:
+				missing = "the predicate does not test the key for a glob"
+			case !best.ancestorGlob:
+				missing = "the predicate does not test whether the key lies inside the map of a glob (a search from the base AST)"
+			case !best.class:
+				missing = "the predicate does not test whether the key lies inside a class"
+			}
+			c.Decide(missing == "", "C37.in-place-guard", key, x.Pos(), "guarded by a predicate that refuses globs, glob maps and classes",
+				fmt.Sprintf("_set overwrites the key %s came from (%s): when that key is a glob, sits in a glob's map or in a class, every other element it applies to changes as well", exprStr(mkSel.X), missing))
+		case *ast.AssignStmt:
+			// X.MapKey.Value = mk.Value (the API value) on an existing key
+			if len(x.Lhs) != 1 || len(x.Rhs) != 1 || x.Tok != token.ASSIGN {
+				return true
+			}
+			l := exprStr(x.Lhs[0])
+			if !strings.HasSuffix(l, ".MapKey.Value") || !strings.HasSuffix(exprStr(x.Rhs[0]), "mk.Value") {
+				return true
+			}
+			base := strings.TrimSuffix(l, ".Value")
+			// an enclosing if whose condition looks at the key's map and whose other arm keeps it
+			ok := false
+			ast.Inspect(set.Decl.Body, func(m ast.Node) bool {
+				ifs, isIf := m.(*ast.IfStmt)
+				if !isIf || ifs.Else == nil || x.Pos() < ifs.Else.Pos() || x.End() > ifs.Else.End() {
+					return true
+				}
+				if strings.Contains(exprStr(ifs.Cond), base+".Value.Map != nil") && core.Contains(ifs.Body, func(y ast.Node) bool {
+					cl, isCall := y.(*ast.CallExpr)
+					return isCall && strings.HasSuffix(exprStr(cl.Fun), ".SetScalar")
+				}) {
+					ok = true
+				}
+				return true
+			})
+			c.Decide(ok, "C37.keep-map", "keep-map:_set:"+l, x.Pos(), "only in the arm where the key has no map; the other arm uses SetScalar",
+				fmt.Sprintf("_set replaces the whole value of an existing key (%s = mk.Value): when the key carries a map, e.g. (a -> b)[0]: {style.stroke: red}, the map and every attribute in it are dropped by setting the label", l))
+		}
+		return true
+	})
+	if nsites < 20 {
+		c.Fail("C37.in-place-guard", "in-place:inventory", token.NoPos, fmt.Sprintf("only %d in-place rewrites found in _set", nsites))
+	}
+	// the map _set appends the new key into, when it takes it from a reference of a connection, is the connection's own
+	c.Rule("C37.own-map", "the map of a reference is chosen as the place to append into only when the reference's key is the element's alone (no glob, a single connection)")
+	nown := 0
+	ast.Inspect(set.Decl.Body, func(n ast.Node) bool {
+		rs, ok := n.(*ast.RangeStmt)
+		if !ok || rs.Value == nil {
+			return true
+		}
+		t := info.TypeOf(rs.Value)
+		if t == nil || !strings.HasSuffix(t.String(), "d2graph.EdgeReference") {
+			return true
+		}
+		ref := core.ObjOf(info, rs.Value)
+		ast.Inspect(rs.Body, func(m ast.Node) bool {
+			as, ok := m.(*ast.AssignStmt)
+			if !ok || len(as.Lhs) != 1 || len(as.Rhs) != 1 || as.Tok != token.ASSIGN {
+				return true
+			}
+			if rootIdent(info, as.Rhs[0]) != ref || !strings.HasSuffix(exprStr(as.Rhs[0]), ".MapKey.Value.Map") {
+				return true
+			}
+			if tl := info.TypeOf(as.Lhs[0]); tl == nil || !strings.HasSuffix(tl.String(), "d2ast.Map") {
+				return true
+			}
+			nown++
+			globTested, chainTested := false, false
+			for _, g := range fl.GuardsOfNode(as) {
+				for _, a := range g.Atoms() {
+					cs := exprStr(a.Cond)
+					if strings.Contains(cs, ".HasGlob()") && !a.True {
+						globTested = true
+					}
+					if strings.Contains(cs, "len("+ref.Name()+".MapKey.Edges)") {
+						chainTested = true
+					}
+				}
+			}
+			c.Decide(globTested, "C37.own-map", "own-map:_set:"+exprStr(as.Lhs[0])+"="+exprStr(as.Rhs[0])+"|glob", as.Pos(), "not taken from a glob reference",
+				"_set appends the new attribute into the map of the first reference that has one, without testing that the reference is not a glob: with `(* -> *)[*]: {style.stroke: red}` Set of (a -> b)[0].style.stroke writes into the glob's map and every connection changes")
+			c.Decide(chainTested, "C37.own-map", "own-map:_set:"+exprStr(as.Lhs[0])+"="+exprStr(as.Rhs[0])+"|chain", as.Pos(), "not taken from a chain reference",
+				"_set appends the new attribute into the map of the first reference that has one, without testing that the reference names this connection alone: with `a -> b -> c: {style.opacity: 0.4}` Set on (a -> b)[0] edits the chain's map and (b -> c)[0] changes too")
+			return true
+		})
+		return true
+	})
+	if nown == 0 {
+		c.Fail("C37.own-map", "own-map:inventory", token.NoPos, "no scope = ref.MapKey.Value.Map choice found in _set")
 	}
 }
